@@ -108,6 +108,7 @@ type vchCtx struct {
 	// index inside the fwd pkg ReceiveRevocation returned when the Add was
 	// locked in) and the place the response came from (destRef: an entry of a
 	// package of a second, dummy channel kept in the same DB).
+	probed  bool // a liveprobe ran: nothing may follow
 	refsOn  bool
 	addRef  [2]map[uint64]channeldb.AddRef // incoming HTLC index -> its Add
 	destIdx [2]map[uint64]uint16           // incoming HTLC index -> dest entry
@@ -743,6 +744,16 @@ func (c *vchCtx) record(op []any, res string, extra map[string]any) {
 	}
 	st["hl"] = hl
 	c.steps = append(c.steps, st)
+}
+
+// recordTerminal appends the terminal liveprobe step: the state of the probed
+// objects is NOT observed (both party dumps and height logs are written as
+// "=", i.e. "as before"): what a live resync leaves behind is not a state of a
+// protocol-following schedule.
+func (c *vchCtx) recordTerminal(op []any, res string, extra map[string]any) {
+	c.steps = append(c.steps, map[string]any{"op": op, "res": res,
+		"qa": len(c.q[0]), "qb": len(c.q[1]), "extra": extra,
+		"a": "=", "b": "=", "hl": map[string]any{"a": "=", "b": "="}})
 }
 
 // ---------------------------------------------------------------------------
@@ -1588,6 +1599,178 @@ func (c *vchCtx) doCrashIn(p int, call string, k int) {
 	c.restartBoth(op, extra, p)
 }
 
+// doLiveProbe is the LIVE-RESYNC PROBE, a TERMINAL step (nothing may follow it:
+// the probed objects are not a protocol-following continuation): the
+// connection "drops" and the channel_reestablish exchange is run on the LIVE
+// in-memory channel objects instead of objects rebuilt from disk - the API
+// allows that, and a live object may hold an accepted but not yet revoked (=
+// not durable) commitment.  mode[i] = 'l': party i keeps its live object, 'r':
+// party i is rebuilt from disk first (as lnd's peer does).  Both ChanSyncMsg
+// are created, then a and b run ProcessChanSyncMsg.  Recorded per party
+// (extra.probe.<p>): live, tip_minus_tail (local chain, before), err (class),
+// kinds of the returned messages, rev_heights (for every returned
+// revoke_and_ack the height whose per-commitment secret it carries, -1 =
+// unknown), durable_before / durable_after = LocalCommitment.CommitHeight of a
+// FRESH fetch of the channel from its DB right before / after the call, sync =
+// [NextLocalCommitHeight, RemoteCommitTailHeight] it sent.
+func (c *vchCtx) doLiveProbe(mode string) {
+	if len(mode) != 2 {
+		mode = "ll"
+	}
+	op := []any{"liveprobe", mode}
+	probe := map[string]any{}
+	extra := map[string]any{"probe": probe,
+		"queues": []int{len(c.q[0]), len(c.q[1])}}
+	durable := func(p int) any {
+		cs := c.ch[p].channelState
+		chans, err := cs.Db.FetchOpenChannels(cs.IdentityPub)
+		if err != nil || len(chans) != 1 {
+			return nil
+		}
+		return chans[0].LocalCommitment.CommitHeight
+	}
+	info := [2]map[string]any{}
+	for p := 0; p < 2; p++ {
+		lch := c.ch[p].commitChains.Local
+		info[p] = map[string]any{"live": mode[p] != 'r',
+			"tip_minus_tail": lch.tip().height - lch.tail().height,
+			"rtip_minus_rtail": c.ch[p].commitChains.Remote.tip().height -
+				c.ch[p].commitChains.Remote.tail().height,
+			"err": nil, "kinds": []string{}, "rev_heights": []int64{}}
+		probe[vchNames[p]] = info[p]
+		if mode[p] == 'r' {
+			var lc *LightningChannel
+			if r := vchSafe(func() error {
+				var err error
+				lc, err = vchReload(c.ch[p])
+				return err
+			}); r != "ok" {
+				info[p]["err"] = "reload:" + r
+				c.recordTerminal(op, "reload_failed", extra)
+				return
+			}
+			c.ch[p] = lc
+		}
+	}
+	var sync [2]*lnwire.ChannelReestablish
+	for p := 0; p < 2; p++ {
+		if r := vchSafe(func() error {
+			var err error
+			sync[p], err = c.ch[p].channelState.ChanSyncMsg()
+			return err
+		}); r != "ok" {
+			info[p]["err"] = "chansyncmsg:" + r
+			c.recordTerminal(op, "sync_failed", extra)
+			return
+		}
+		info[p]["sync"] = []uint64{sync[p].NextLocalCommitHeight,
+			sync[p].RemoteCommitTailHeight}
+	}
+	for p := 0; p < 2; p++ {
+		info[p]["durable_before"] = durable(p)
+		if mode[p] != 'r' && c.ct.IsTaproot() {
+			// a live taproot object has consumed the verification nonce
+			// NewLightningChannel generated; give it the one a resync needs
+			_, err := c.ch[p].GenMusigNonces()
+			info[p]["nonce_regen"] = err == nil
+		}
+		var msgs []lnwire.Message
+		r := vchSafe(func() error {
+			var err error
+			msgs, _, _, err = c.ch[p].ProcessChanSyncMsg(ctxb, sync[1-p])
+			return err
+		})
+		info[p]["durable_after"] = durable(p)
+		if r != "ok" {
+			info[p]["err"] = r
+			continue
+		}
+		kinds := []string{}
+		revs := []int64{}
+		for _, m := range msgs {
+			kinds = append(kinds, vchKind(m))
+			rev, ok := m.(*lnwire.RevokeAndAck)
+			if !ok {
+				continue
+			}
+			h := int64(-1)
+			top := c.ch[p].commitChains.Local.tip().height + 2
+			for x := uint64(0); x <= top; x++ {
+				s, err := c.ch[p].channelState.RevocationProducer.AtIndex(x)
+				if err == nil && [32]byte(*s) == rev.Revocation {
+					h = int64(x)
+					break
+				}
+			}
+			revs = append(revs, h)
+		}
+		info[p]["kinds"], info[p]["rev_heights"] = kinds, revs
+	}
+	c.probed = true
+	c.recordTerminal(op, "ok", extra)
+}
+
+// probeEpilogue brings the (drained) channel into a state worth probing:
+// mostly the window "commit_sig received, not yet revoked" on one or both
+// sides, else a few random steps.
+func (c *vchCtx) probeEpilogue() {
+	r := c.r
+	ok := func() bool { return c.abort == "" }
+	flush := func(to int) {
+		for ok() && c.canDeliver(to) {
+			c.doDeliver(to)
+		}
+	}
+	update := func(p int) {
+		res := c.resolvable(p)
+		switch x := r.intn(10); {
+		case p == 0 && !c.noFee && x < 2:
+			c.doFee(0, c.pickFee(), false)
+		case len(res) > 0 && x < 6:
+			c.doResolve([]string{"settle", "fail", "malformed"}[r.intn(3)],
+				p, res[r.intn(len(res))], false, false)
+		default:
+			c.genAdd(p)
+		}
+	}
+	// p updates + signs, q receives everything: q holds an unrevoked commitment
+	flight := func(p int) {
+		update(p)
+		if ok() && r.intn(3) == 0 {
+			update(p)
+		}
+		if ok() && c.windowOpen(p) && c.owes(p) {
+			if c.doSign(p) == "ok" {
+				flush(1 - p)
+			}
+		}
+	}
+	x := r.intn(10)
+	switch {
+	case x < 6:
+		p := r.intn(2)
+		flight(p)
+		switch y := r.intn(6); {
+		case y == 0 && ok():
+			// the peer's own flight crosses: both sides hold one
+			flight(1 - p)
+		case y == 1 && ok():
+			// q's update + signature still in flight towards p
+			update(1 - p)
+			if ok() && c.windowOpen(1-p) && c.owes(1-p) {
+				c.doSign(1 - p)
+			}
+		case y == 2 && ok() && c.hasLtip(1-p):
+			// q revoked, the revocation is in flight
+			c.doRevoke(1 - p)
+		}
+	default:
+		for n := 1 + r.intn(8); n > 0 && ok(); n-- {
+			c.genMain()
+		}
+	}
+}
+
 // crashPoint draws the number of transactions a crashed call of this kind
 // still commits: 0 .. n, n = most transactions a call of the kind was seen to
 // commit in this case (at least 1); with n > 1 the interior points 1 .. n-1 -
@@ -2279,6 +2462,13 @@ func (c *vchCtx) runScript(ops [][]any) {
 			c.doCrash(vchSide(op[1]))
 		case "cut":
 			c.doCut(int(vchNum(op[1])), int(vchNum(op[2])))
+		case "liveprobe":
+			mode := "ll"
+			if len(op) > 1 {
+				mode = op[1].(string)
+			}
+			c.doLiveProbe(mode)
+			return // terminal
 		case "crashin":
 			c.doCrashIn(vchSide(op[1]), op[2].(string), int(vchNum(op[3])))
 		case "side":
@@ -2355,6 +2545,12 @@ func TestVerifChan(t *testing.T) {
 		cutDef = 1
 	}
 	crashInOn := vEnvInt("VERIF_CRASHIN", cutDef) != 0
+	probeOn := vEnvInt("VERIF_LIVEPROBE", cutDef) != 0
+	probePct := int64(50)
+	if vTier() == "thorough" {
+		probePct = 100
+	}
+	probePct = vEnvInt("VERIF_LIVEPROBE_PCT", probePct)
 
 	// kvdb backend below the channel DBs: VERIF_CHAN_BACKEND = bbolt | sqlite
 	// | mix (default; VERIF_CHAN_SQLITE_PCT percent of the cases on sqlite:
@@ -2495,12 +2691,27 @@ func TestVerifChan(t *testing.T) {
 			} else {
 				c.run(steps)
 			}
+			finalClean := c.abort == "" && (c.probed || c.clean())
+			// LIVE-RESYNC PROBE (VERIF_LIVEPROBE, default = VERIF_CUT;
+			// VERIF_LIVEPROBE_PCT of the generated cases: 50 quick / 100
+			// thorough): after the drained end of the schedule a short
+			// epilogue + the terminal liveprobe step.
+			if sc == nil && probeOn && c.abort == "" && !c.probed &&
+				int64(r.intn(100)) < probePct {
+
+				c.probeEpilogue()
+				if c.abort == "" {
+					c.doLiveProbe([]string{"ll", "ll", "ll", "lr",
+						"rl"}[r.intn(5)])
+				}
+				row["probe_epilogue"] = true
+			}
 			row["steps"] = c.steps
 			row["aborted"] = nil
 			if c.abort != "" {
 				row["aborted"] = c.abort
 			}
-			row["final_clean"] = c.abort == "" && c.clean()
+			row["final_clean"] = finalClean
 			row["n_sign"] = c.nSign
 			out.emit(row)
 		})
